@@ -66,7 +66,8 @@ def ctor_grid(seed, tag, tier):
     all three covariance arguments; general classes with the default (absent) offset and Dy != Dx"""
     out = [(("full", 1, 1, 2, 3), "/giveL"), (("diag", 1, 2, 2, 3), "/giveL"), (("identity", 1, 2, 2, 2), "/giveL"),
            (("identitydiag", 1, 1, 3, 3), "/giveL"), (("identitydiag", 2, 1, 2, 2), "/giveA"), (("diag", 2, 1, 3, 2), "/giveA"),
-           (("diag", 1, 1, 1, 3), "/bnone"), (("full", 1, 2, 1, 2), "/bnone"), (("diag", 1, 1, 3, 2), "/bnone/giveL")]
+           (("diag", 1, 1, 1, 3), "/bnone"), (("full", 1, 2, 1, 2), "/bnone"), (("diag", 1, 1, 3, 2), "/bnone/giveL"),
+           (("full", 2, 1, 2, 3), "/bzero"), (("diag", 1, 2, 2, 2), "/bzero")]
     if tier != "quick":
         out += [(("full", 2, 1, 3, 1), "/giveA"), (("identity", 3, 1, 3, 3), "/giveA"), (("full", 1, 1, 3, 2), "/bnone/giveA")]
     return out
@@ -98,6 +99,17 @@ def nn_grid(seed, tag, tier):
     if tier != "quick":
         out += [("nn", 1, 2, 3, 1), ("nn", 2, 1, 3, 3)]
     return out
+
+
+def well_formed(fails, prop, site, o, R, params):
+    """every per-component field of a batch of R components has leading dimension R (a result that only broadcasts to the
+    right values is not a batch: its slices, updates and round trips break)"""
+    if o is None:
+        return
+    for f in ("Sigma", "Lambda", "mu", "nu", "ln_beta", "ln_det_Sigma", "M", "b"):
+        a = getattr(o, f, None)
+        if a is not None and hasattr(a, "shape") and (len(a.shape) == 0 or a.shape[0] != R):
+            fails.append(failure(prop, f"{site}:shape:{f}", f"field {f} has shape {tuple(a.shape)} in a batch of {R} components", params=params))
 
 
 def hd_grid(seed, tag, tier):
@@ -137,6 +149,7 @@ def case_joint(prop, cls, Rc, Rx, Dy, Dx, tag=""):
         upd_history(m, rng, c, p, "joint", tag)
         j = do_transform(m, "joint", c, p.reg)
         params = dict(cls=cls, Rc=Rc, Rx=Rx, Dy=Dy, Dx=Dx)
+        well_formed(fails, prop, f"affine_joint_transformation:{cls}", m.regs.get(j), Rc * Rx, params)
         if m.regs.get(j) is None:
             fails.append(failure(prop, f"affine_joint_transformation:{cls}", f"raised: {m.impl[-1][1:]}", params=params))
             return fails
@@ -178,6 +191,7 @@ def case_marginal(prop, cls, Rc, Rx, Dy, Dx, tag=""):
         upd_history(m, rng, c, p, "marginal", tag)
         mg = do_transform(m, "marginal", c, p.reg)
         params = dict(cls=cls, Rc=Rc, Rx=Rx, Dy=Dy, Dx=Dx)
+        well_formed(fails, prop, f"affine_marginal_transformation:{cls}", m.regs.get(mg), Rc * Rx, params)
         if m.regs.get(mg) is None:
             fails.append(failure(prop, f"affine_marginal_transformation:{cls}", f"raised: {m.impl[-1][1:]}", params=params))
             return fails
@@ -213,6 +227,7 @@ def case_conditional(prop, cls, Rc, Rx, Dy, Dx, tag=""):
         upd_history(m, rng, c, p, "conditional", tag)
         post = do_transform(m, "conditional", c, p.reg)
         params = dict(cls=cls, Rc=Rc, Rx=Rx, Dy=Dy, Dx=Dx)
+        well_formed(fails, prop, f"affine_conditional_transformation:{cls}", m.regs.get(post), Rc * Rx, params)
         if m.regs.get(post) is None:
             fails.append(failure(prop, f"affine_conditional_transformation:{cls}", f"raised: {m.impl[-1][1:]}", params=params))
             return fails
@@ -296,7 +311,14 @@ def case_set_y(prop, cls, R, N, Dy, Dx, tag=""):
                                      expected=exp.sum(axis=0).tolist(), got=gp.tolist(),
                                      deviation=(gp - exp.sum(axis=0)).tolist(), params=dict(params, Nsum=N)))
         sl = m.slice(f, [N - 1, 0])
-        m.evalln(sl, xr)
+        evs = m.evalln(sl, xr)
+        if m.regs.get(evs) is not None:
+            gs = np.asarray(m.regs[evs]); es = exp[[N - 1, 0]]
+            if gs.shape != es.shape or rel_err(gs, es) > TOL:
+                fails.append(failure(prop, f"set_y:{cls}:slice", "slice of the likelihood factor != the addressed observations' likelihoods",
+                                     expected=es.tolist(), got=gs.tolist(), deviation=((gs - es).reshape(-1).tolist() if gs.shape == es.shape else None), params=params))
+        else:
+            fails.append(failure(prop, f"set_y:{cls}:slice", f"slicing / evaluating the likelihood factor raised: {m.impl[-1][1:]}", params=params))
         u = mk_measure(m, rng, 1, Dx)
         m.multiply(u.reg, f, False)
         return fails
